@@ -18,7 +18,10 @@ KINDS = ["ill-sorted-assert", "undeclared-assert", "non-bool-assert", "named-the
 
 
 def base_script(seed):
-    kind = seed % 4
+    kind = seed % 5
+    if kind == 4:
+        from . import scopes
+        return scopes.build(seed)[0], "answers"       # define-funs, names and their uses across push/pop
     if kind == 0:
         return models.build(seed), "models"
     if kind == 1:
@@ -64,7 +67,7 @@ def make_rejected(kind, cmds, pos, rng, tag):
     if kind == "bad-define-sort":
         return "(define-fun bd_%s () Bool 5)" % tag if num else "(define-fun bd_%s () NoSuchSort %s)" % (tag, b)
     if kind == "duplicate-define":
-        return "(define-fun %s () Bool true)" % defs[-1] if defs else None
+        return "(define-fun %s () Bool true)" % rng.choice(defs) if defs else None
     if kind == "pop-too-far":
         return "(pop %d)" % (depth + rng.choice([1, 2, 5]))
     if kind == "query-wrong-state":
